@@ -60,7 +60,12 @@ def translate() -> tuple[bool, str]:
     tr = VERIF / "harness" / "translate.py"
     if not tr.exists():
         return True, "no translator"
-    rc, out, err = sh([sys.executable, str(tr)], cwd=VERIF, timeout=600, env=dict(os.environ, VERIF_LEAN_DIR=str(LEAN)))
+    try:
+        rc, out, err = sh([sys.executable, str(tr)], cwd=VERIF, timeout=180, env=dict(os.environ, VERIF_LEAN_DIR=str(LEAN)))
+    except subprocess.TimeoutExpired:
+        # (seconds on the unchanged tree) the source can no longer be read the way the translator reads it, e.g. a lazily
+        # enumerated space became eager: the generated part of the model cannot be refreshed -> a broken obligation, then the search
+        return False, "the translator did not finish within 180 s on the current source (it takes about 3 s on the tree it was written for)"
     return rc == 0, out + err
 
 
